@@ -77,7 +77,66 @@ def opt_grid(required_axes, optional_axes):
     return out
 
 
+def singled_out():
+    """Numbers the motion and serial modules single out in their own source (literals and
+    constant expressions such as 60 * 1000): a helper that treats one value specially names it."""
+    import sys as _sys                      # pylint: disable=import-outside-toplevel
+    _libs()
+    vals = set()
+    for name in ("plotink.ebb_motion", "plotink.ebb3_motion", "plotink.ebb_serial",
+                 "plotink.ebb3_serial"):
+        mod = _sys.modules.get(name)
+        if mod is None:
+            try:
+                mod = __import__(name, fromlist=["x"])
+            except ImportError:
+                continue
+        vals |= set(core.harvest_ints(mod, low=8, high=(1 << 31) - 1))
+    # ... and the power-up defaults and limits the EBB firmware documentation gives for the
+    # settings these helpers change (SR 60000 ms, SC,4/SC,5 12000/16000, SC,10 400, servo range
+    # 9855..27831, 25000 steps/s, 24000 servo ticks per ms): "already at its default" is the
+    # natural excuse for a helper to skip a transmission
+    vals |= {60000, 12000, 16000, 400, 9855, 27831, 25000, 24000}
+    return sorted(vals - set(INTS))
+
+
+_INT_HELPERS = {"doABMove", "doXYMove", "doAbsMove", "sendPenDown", "sendPenUp", "PBOutConfig",
+                "PBOutValue", "setPenDownPos", "setPenDownRate", "setPenUpPos", "setPenUpRate",
+                "setEBBLV", "servo_timeout", "xy_move", "abs_move", "pen_lower", "pen_raise",
+                "dio_b_config", "dio_b_set", "dio_b_read", "pen_pos_down", "pen_pos_up",
+                "pen_rate_down", "pen_rate_up"}
+
+
+def _single_out(table):
+    """Each argument of each integer-argument helper in turn at each singled-out number (and its
+    negative), the other arguments ordinary, for every arity the helper accepts."""
+    extra = singled_out()
+    for name, (args_list, expected) in list(table.items()):
+        if name not in _INT_HELPERS or not args_list:
+            continue
+        arities = sorted({len(a) for a in args_list if a})
+        more = []
+        for arity in arities:
+            for base in ((1,) * arity, (7, 0, 2)[:arity] + (3,) * max(0, arity - 3)):
+                for pos in range(arity):
+                    for val in extra:
+                        for signed in (val, -val):
+                            more.append(base[:pos] + (signed,) + base[pos + 1:])
+        seen = set(args_list)
+        table[name] = (list(args_list) + [a for a in dict.fromkeys(more) if a not in seen],
+                       expected)
+    return table
+
+
 def legacy_table(ctx):
+    return _single_out(_legacy_table(ctx))
+
+
+def ebb3_table(ctx):
+    return _single_out(_ebb3_table(ctx))
+
+
+def _legacy_table(ctx):
     ints3 = grid(INTS, INTS, INTS)
     lm_axes = [SMALL] * 6
     lm_args = [a + (c,) for a in itertools.product(*lm_axes) for c in OPT]
@@ -148,7 +207,7 @@ def legacy_table(ctx):
 LEGACY_NOT_HELPERS = {"version", "moveDistLM", "moveDistLMA", "moveTimeLM"}    # pure calculators
 
 
-def ebb3_table(_ctx):
+def _ebb3_table(_ctx):
     ints3 = grid(INTS, INTS, INTS)
     return {
         "timed_pause": ([(n,) for n in PAUSES], None),
